@@ -1,7 +1,826 @@
-//! C13 — stub (monitor not built yet)
-use crate::run::{Ctx, Report, Stats};
-pub fn run(_ctx: &Ctx) -> Report {
-    let mut r = Report::new(Stats::default(), "not built");
-    r.inconclusive.push("monitor-not-built".into());
-    r
+//! C13 — Complex arithmetic is exact field arithmetic; operator variants / ordering agree.
+//!
+//! Oracles
+//! * `Complex<Rat>` (the real generic operator code instantiated at the harness' exact rationals):
+//!   every operator impl, `conj`, `abs_sqr`, `zero`, `one`, `==`, `partial_cmp` against independently
+//!   coded field formulae on (re,im) pairs (multiplication via the 3-multiplication identity, division via
+//!   the inverse w^-1 = conj(w)/|w|^2 and the back-check q*w == z) — exact equality; field axioms on triples.
+//! * `Complex<f64>`, components 0 or of magnitude 1e-100..1e100: results against the exact value held as
+//!   TwoProd/double-double expansions (oracle error ~1e-31, negligible): normwise error <= TOL_MUL*u for `*`,
+//!   <= TOL_DIV*u for `/`; bit-exact components for neg/conj/+/-/mixed +,-; <= TOL_SCALAR*u componentwise for
+//!   mixed *,/ ; abs_sqr/abs/arg to a few u. Small dyadic operands are additionally compared with the
+//!   *rational* result (computed over Rat) rounded to f64 — there `*` must be exact and `/` correctly rounded.
+//! * bit identity (`to_bits`) of each of the 8 compound-assignment forms with its binary form, and of
+//!   `f64 * z` with `z * f64`.
+//! * ordering: `partial_cmp` equals an independently coded lexicographic model, the six comparison operators
+//!   are consistent with it (exactly one of <,=,>), antisymmetric, transitive on triples.
+use crate::fl::{hexf, DD, U};
+use crate::json::J;
+use crate::mon::common::*;
+use crate::rat::Rat;
+use crate::rng::Rng;
+use crate::run::{catch, par_run, Ctx, Outcome, Report, Stats};
+use ohsl::{Cmplx, Complex, Number, One, Zero};
+use std::cmp::Ordering;
+use std::fmt::Debug;
+
+const TAG: u64 = 0xC13;
+
+// ---- fixed tolerances (units of u = 2^-53) -------------------------------------------------
+// The operators are straight-line IEEE-754 formulae, so (absent overflow/underflow, which the operand-range
+// certificate excludes) their error has an a-priori *proven* bound. The tolerances below are the values fixed in
+// DESIGN.md ("a few ulps"): about 2x the proven bound, hence never a false alarm, while any wrong formula
+// (sign, operand, dropped term) gives errors of order 1/u. Measured worst on the unchanged tree (thorough,
+// 3.1e9 evaluations): mul 2.00, div 4.12, scalar mul/div 1.00, abs_sqr 1.98, abs 1.94, arg 2.70 (all in u).
+/// normwise |fl(z*w) - z*w| / (|z||w|); rigorous bound of the textbook formula is sqrt(5) u (Brent/Percival/Zimmermann)
+const TOL_MUL: f64 = 4.0;
+/// normwise |fl(z/w) - z/w| / |z/w|; first-order bound of the textbook formula is (sqrt(5)+3) u
+const TOL_DIV: f64 = 12.0;
+/// componentwise relative error of (a*r, b*r) and (a/r, b/r); one rounding each => 1 u
+const TOL_SCALAR: f64 = 2.0;
+/// relative error of a*a+b*b (three roundings, no cancellation => 2 u)
+const TOL_ABSSQR: f64 = 3.0;
+/// relative error of sqrt(fl(a*a+b*b)) (=> 2 u)
+const TOL_ABS: f64 = 4.0;
+/// |Im(z * exp(-i arg z))| / |z|: first-order estimate atan2 (<= 1 ulp(pi) = 4u) + sin/cos (<= 1u each) + roundings
+/// ~ 6u, but it depends on the platform libm, so this one follows the empirical rule: >= 2 orders of magnitude
+/// over the measured worst (2.7 u). A wrong formula (e.g. swapped atan2 arguments) gives O(1/u).
+const TOL_ARG: f64 = 512.0;
+
+type P = (Rat, Rat);
+type CQ = Complex<Rat>;
+
+fn cq(p: P) -> CQ { Complex::new(p.0, p.1) }
+fn pq(z: &CQ) -> P { (z.real, z.imag) }
+
+// ---- independent field model on (re, im) pairs ---------------------------------------------
+fn m_add(p: P, q: P) -> P { (p.0 + q.0, p.1 + q.1) }
+fn m_neg(p: P) -> P { (Rat::ZERO - p.0, Rat::ZERO - p.1) }
+fn m_sub(p: P, q: P) -> P { m_add(p, m_neg(q)) }
+fn m_conj(p: P) -> P { (p.0, Rat::ZERO - p.1) }
+/// 3-multiplication form: re = ac - bd, im = (a+b)(c+d) - ac - bd
+fn m_mul(p: P, q: P) -> P {
+    let k1 = p.0 * q.0;
+    let k2 = p.1 * q.1;
+    let k3 = (p.0 + p.1) * (q.0 + q.1);
+    (k1 - k2, k3 - k1 - k2)
 }
+fn m_norm(p: P) -> Rat { p.0 * p.0 + p.1 * p.1 }
+/// z / w = z * (conj(w) / |w|^2); None when w == 0 (behaviour undefined by the property)
+fn m_div(p: P, q: P) -> Option<P> {
+    let n = m_norm(q);
+    if n.is_zero() { return None; }
+    let inv = (q.0 / n, (Rat::ZERO - q.1) / n);
+    Some(m_mul(p, inv))
+}
+fn m_lex(p: P, q: P) -> Ordering {
+    if p.0 < q.0 { Ordering::Less } else if q.0 < p.0 { Ordering::Greater }
+    else if p.1 < q.1 { Ordering::Less } else if q.1 < p.1 { Ordering::Greater }
+    else { Ordering::Equal }
+}
+
+struct ModelQ {
+    add: P, sub: P, mul: P, div: Option<P>, neg: P, conj: P, abs_sqr: Rat,
+    addr: P, subr: P, mulr: P, divr: Option<P>, ord: Ordering, eq: bool,
+}
+
+/// Judge a library result of type Complex<Rat> against the model value.
+/// `exp == None`: behaviour undefined (division by zero) — everything accepted.
+fn chk_q(st: &mut Stats, site: &str, out: Outcome<CQ>, exp: Option<P>, desc: &dyn Fn() -> String) -> Option<P> {
+    st.eval();
+    let e = match exp { Some(e) => e, None => { st.count("undefined:exact-division-by-zero"); return None; } };
+    match out {
+        Outcome::Ok(v) => {
+            let got = pq(&v);
+            if got != e {
+                st.violation(&format!("C13:{}:Rat:wrong-value", site), format!("{} returned {:?}, exact value {:?}; {}", site, got, e, desc()));
+            }
+            Some(got)
+        }
+        Outcome::Overflow | Outcome::Budget => { st.count("skipped:rat-overflow-in-library"); None }
+        other => {
+            st.violation(&format!("C13:{}:Rat:refused", site), format!("{} {} where {:?} is defined; {}", site, other.describe(), e, desc()));
+            None
+        }
+    }
+}
+
+fn chk_same(st: &mut Stats, site: &str, assign: Option<P>, binary: Option<P>, desc: &dyn Fn() -> String) {
+    if let (Some(a), Some(b)) = (assign, binary) {
+        if a != b {
+            st.violation(&format!("C13:{}:Rat:differs-from-binary", site), format!("{} gave {:?} but binary form gave {:?}; {}", site, a, b, desc()));
+        }
+    }
+}
+
+fn chk_bool(st: &mut Stats, site: &str, ty: &str, out: Outcome<bool>, exp: bool, desc: &dyn Fn() -> String) {
+    st.eval();
+    match out {
+        Outcome::Ok(v) => if v != exp {
+            st.violation(&format!("C13:{}:{}:wrong-value", site, ty), format!("{} returned {}, expected {}; {}", site, v, exp, desc()));
+        },
+        Outcome::Overflow | Outcome::Budget => st.count("skipped:rat-overflow-in-library"),
+        other => st.violation(&format!("C13:{}:{}:refused", site, ty), format!("{} {}; {}", site, other.describe(), desc())),
+    }
+}
+
+/// Equality / ordering of one pair against the model ordering `m` (lexicographic on (re,im)).
+/// Returns the library's own `partial_cmp` answer (used for transitivity on triples).
+fn judge_order<T>(st: &mut Stats, ty: &str, z: &Complex<T>, w: &Complex<T>, m: Ordering, desc: &dyn Fn() -> String) -> Option<Ordering>
+where T: Clone + Number + PartialOrd + Debug {
+    st.eval();
+    let lib = match catch(|| z.partial_cmp(w)) {
+        Outcome::Ok(o) => o,
+        Outcome::Overflow | Outcome::Budget => { st.count("skipped:rat-overflow-in-library"); return None; }
+        other => { st.violation(&format!("C13:partial_cmp:{}:refused", ty), format!("partial_cmp {}; {}", other.describe(), desc())); return None; }
+    };
+    if lib != Some(m) {
+        st.violation(&format!("C13:partial_cmp:{}:wrong-value", ty), format!("partial_cmp returned {:?}, lexicographic model {:?}; {}", lib, m, desc()));
+    }
+    st.eval();
+    match catch(|| w.partial_cmp(z)) {
+        Outcome::Ok(o) => if o != Some(m.reverse()) {
+            st.violation(&format!("C13:partial_cmp:{}:not-antisymmetric", ty), format!("cmp(w,z) = {:?} but model cmp(z,w) = {:?}; {}", o, m, desc()));
+        },
+        Outcome::Overflow | Outcome::Budget => st.count("skipped:rat-overflow-in-library"),
+        other => st.violation(&format!("C13:partial_cmp:{}:refused", ty), format!("partial_cmp(w,z) {}; {}", other.describe(), desc())),
+    }
+    let flags = catch(|| (z < w, z == w, z > w, z <= w, z >= w, z != w));
+    st.evals_add(6);
+    match flags {
+        Outcome::Ok((lt, eq, gt, le, ge, ne)) => {
+            let n = lt as u32 + eq as u32 + gt as u32;
+            if n != 1 {
+                st.violation(&format!("C13:trichotomy:{}:violated", ty), format!("(<,==,>) = ({},{},{}) — not exactly one; {}", lt, eq, gt, desc()));
+            }
+            let want = (m == Ordering::Less, m == Ordering::Equal, m == Ordering::Greater);
+            if (lt, eq, gt) != want || le != (lt || eq) || ge != (gt || eq) || ne == eq {
+                st.violation(&format!("C13:comparison-operators:{}:inconsistent", ty),
+                    format!("(<,==,>,<=,>=,!=) = ({},{},{},{},{},{}) vs model {:?}; {}", lt, eq, gt, le, ge, ne, m, desc()));
+            }
+        }
+        Outcome::Overflow | Outcome::Budget => st.count("skipped:rat-overflow-in-library"),
+        other => st.violation(&format!("C13:comparison-operators:{}:refused", ty), format!("comparison {}; {}", other.describe(), desc())),
+    }
+    lib
+}
+
+fn transitivity(st: &mut Stats, ty: &str, c12: Option<Ordering>, c23: Option<Ordering>, c13: Option<Ordering>, desc: &dyn Fn() -> String) {
+    if let (Some(x), Some(y), Some(zz)) = (c12, c23, c13) {
+        let implied = if x == y { Some(x) } else if x == Ordering::Equal { Some(y) } else if y == Ordering::Equal { Some(x) } else { None };
+        if let Some(i) = implied {
+            st.count(&format!("order-triples-with-implication:{}", ty));
+            if zz != i {
+                st.violation(&format!("C13:transitivity:{}:violated", ty), format!("cmp(1,2)={:?} cmp(2,3)={:?} but cmp(1,3)={:?}; {}", x, y, zz, desc()));
+            }
+        }
+    }
+}
+
+fn nontrivial4(a: bool, b: bool, c: bool, d: bool, distinct: bool) -> bool { a && b && c && d && distinct }
+
+fn hq(h: u64, r: Rat) -> u64 { hmix(hmix(h, r.n as u64 ^ ((r.n >> 64) as u64)), r.d as u64 ^ ((r.d >> 64) as u64)) }
+
+/// All operator forms on one exact pair (z, w) and one exact real scalar r.
+fn exact_pair(st: &mut Stats, class: &str, z: P, w: P, r: Rat) {
+    st.next_case();
+    let desc = || format!("T=Rat class={} z={:?} w={:?} r={:?}", class, z, w, r);
+    let model = catch(|| ModelQ {
+        add: m_add(z, w), sub: m_sub(z, w), mul: m_mul(z, w), div: m_div(z, w), neg: m_neg(z), conj: m_conj(z),
+        abs_sqr: m_mul(z, m_conj(z)).0,
+        addr: (z.0 + r, z.1), subr: (z.0 - r, z.1), mulr: (z.0 * r, z.1 * r),
+        divr: if r.is_zero() { None } else { Some((z.0 / r, z.1 / r)) },
+        ord: m_lex(z, w), eq: z.0 == w.0 && z.1 == w.1,
+    });
+    let m = match model { Outcome::Ok(m) => m, _ => { st.count("skipped:rat-overflow-in-model"); return; } };
+    // model self-consistency (q*w == z): a harness fault, never a library verdict
+    if let Some(q) = m.div {
+        match catch(|| m_mul(q, w)) {
+            Outcome::Ok(back) => if back != z { st.harness_errors.push(format!("C13 model division inconsistent: {}", desc())); return; },
+            _ => { st.count("skipped:rat-overflow-in-model"); return; }
+        }
+    }
+    // --- binary / unary forms
+    chk_q(st, "neg", catch(|| -cq(z)), Some(m.neg), &desc);
+    chk_q(st, "conj", catch(|| cq(z).conj()), Some(m.conj), &desc);
+    let b_add = chk_q(st, "add", catch(|| cq(z) + cq(w)), Some(m.add), &desc);
+    let b_sub = chk_q(st, "sub", catch(|| cq(z) - cq(w)), Some(m.sub), &desc);
+    let b_mul = chk_q(st, "mul", catch(|| cq(z) * cq(w)), Some(m.mul), &desc);
+    let b_div = chk_q(st, "div", catch(|| cq(z) / cq(w)), m.div, &desc);
+    let b_addr = chk_q(st, "add_real", catch(|| cq(z) + r), Some(m.addr), &desc);
+    let b_subr = chk_q(st, "sub_real", catch(|| cq(z) - r), Some(m.subr), &desc);
+    let b_mulr = chk_q(st, "mul_real", catch(|| cq(z) * r), Some(m.mulr), &desc);
+    let b_divr = chk_q(st, "div_real", catch(|| cq(z) / r), m.divr, &desc);
+    // --- compound assignment forms: against the model and against the binary form
+    let a = chk_q(st, "add_assign", catch(|| { let mut t = cq(z); t += cq(w); t }), Some(m.add), &desc);
+    chk_same(st, "add_assign", a, b_add, &desc);
+    let a = chk_q(st, "sub_assign", catch(|| { let mut t = cq(z); t -= cq(w); t }), Some(m.sub), &desc);
+    chk_same(st, "sub_assign", a, b_sub, &desc);
+    let a = chk_q(st, "mul_assign", catch(|| { let mut t = cq(z); t *= cq(w); t }), Some(m.mul), &desc);
+    chk_same(st, "mul_assign", a, b_mul, &desc);
+    let a = chk_q(st, "div_assign", catch(|| { let mut t = cq(z); t /= cq(w); t }), m.div, &desc);
+    chk_same(st, "div_assign", a, b_div, &desc);
+    let a = chk_q(st, "add_assign_real", catch(|| { let mut t = cq(z); t += r; t }), Some(m.addr), &desc);
+    chk_same(st, "add_assign_real", a, b_addr, &desc);
+    let a = chk_q(st, "sub_assign_real", catch(|| { let mut t = cq(z); t -= r; t }), Some(m.subr), &desc);
+    chk_same(st, "sub_assign_real", a, b_subr, &desc);
+    let a = chk_q(st, "mul_assign_real", catch(|| { let mut t = cq(z); t *= r; t }), Some(m.mulr), &desc);
+    chk_same(st, "mul_assign_real", a, b_mulr, &desc);
+    let a = chk_q(st, "div_assign_real", catch(|| { let mut t = cq(z); t /= r; t }), m.divr, &desc);
+    chk_same(st, "div_assign_real", a, b_divr, &desc);
+    // self-aliasing shapes of the in-place forms: z *= z, z /= z
+    chk_q(st, "mul_assign", catch(|| { let mut t = cq(z); let c = t.clone(); t *= c; t }), catch(|| m_mul(z, z)).ok(), &desc);
+    if !(z.0.is_zero() && z.1.is_zero()) {
+        chk_q(st, "div_assign", catch(|| { let mut t = cq(z); let c = t.clone(); t /= c; t }), Some((Rat::ONE, Rat::ZERO)), &desc);
+    }
+    // --- squared modulus
+    st.eval();
+    match catch(|| cq(z).abs_sqr()) {
+        Outcome::Ok(v) => if v != m.abs_sqr { st.violation("C13:abs_sqr:Rat:wrong-value", format!("abs_sqr returned {:?}, exact {:?}; {}", v, m.abs_sqr, desc())); },
+        Outcome::Overflow | Outcome::Budget => st.count("skipped:rat-overflow-in-library"),
+        other => st.violation("C13:abs_sqr:Rat:refused", format!("abs_sqr {}; {}", other.describe(), desc())),
+    }
+    // --- identities
+    chk_q(st, "zero", catch(|| <CQ as Zero>::zero()), Some((Rat::ZERO, Rat::ZERO)), &desc);
+    chk_q(st, "one", catch(|| <CQ as One>::one()), Some((Rat::ONE, Rat::ZERO)), &desc);
+    chk_q(st, "identity-add-zero", catch(|| cq(z) + <CQ as Zero>::zero()), Some(z), &desc);
+    chk_q(st, "identity-zero-add", catch(|| <CQ as Zero>::zero() + cq(z)), Some(z), &desc);
+    chk_q(st, "identity-sub-zero", catch(|| cq(z) - <CQ as Zero>::zero()), Some(z), &desc);
+    chk_q(st, "identity-mul-one", catch(|| cq(z) * <CQ as One>::one()), Some(z), &desc);
+    chk_q(st, "identity-one-mul", catch(|| <CQ as One>::one() * cq(z)), Some(z), &desc);
+    chk_q(st, "identity-div-one", catch(|| cq(z) / <CQ as One>::one()), Some(z), &desc);
+    chk_q(st, "identity-mul-assign-one", catch(|| { let mut t = cq(z); t *= <CQ as One>::one(); t }), Some(z), &desc);
+    chk_q(st, "identity-div-assign-one", catch(|| { let mut t = cq(z); t /= <CQ as One>::one(); t }), Some(z), &desc);
+    chk_q(st, "identity-add-assign-zero", catch(|| { let mut t = cq(z); t += <CQ as Zero>::zero(); t }), Some(z), &desc);
+    chk_q(st, "annihilator-mul-zero", catch(|| cq(z) * <CQ as Zero>::zero()), Some((Rat::ZERO, Rat::ZERO)), &desc);
+    // --- equality and ordering
+    chk_bool(st, "eq", "Rat", catch(|| cq(z) == cq(w)), m.eq, &desc);
+    chk_bool(st, "ne", "Rat", catch(|| cq(z) != cq(w)), !m.eq, &desc);
+    chk_bool(st, "eq-reflexive", "Rat", catch(|| cq(z) == cq(z)), true, &desc);
+    judge_order(st, "Rat", &cq(z), &cq(w), m.ord, &desc);
+
+    st.count(&format!("cases:Rat:pair:{}", class));
+    let nz = |x: Rat| !x.is_zero();
+    let distinct = { let mut v = [z.0.abs_r(), z.1.abs_r(), w.0.abs_r(), w.1.abs_r()]; v.sort_by(|a, b| (a.n, a.d).cmp(&(b.n, b.d))); v[0] != v[1] && v[1] != v[2] && v[2] != v[3] };
+    if nontrivial4(nz(z.0), nz(z.1), nz(w.0), nz(w.1), distinct) && nz(r) {
+        let mut h = hash_str("Rat-pair");
+        for x in [z.0, z.1, w.0, w.1, r] { h = hq(h, x); }
+        st.nontrivial(h);
+    }
+    st.sample(|| desc());
+}
+
+/// library-only evaluation of both sides of a field axiom; equal exact values demanded
+fn axiom(st: &mut Stats, name: &str, lhs: Outcome<CQ>, rhs: Outcome<CQ>, desc: &dyn Fn() -> String) {
+    st.evals_add(2);
+    match (lhs, rhs) {
+        (Outcome::Ok(l), Outcome::Ok(r)) => if pq(&l) != pq(&r) {
+            st.violation(&format!("C13:axiom-{}:Rat:violated", name), format!("lhs {:?} != rhs {:?}; {}", pq(&l), pq(&r), desc()));
+        },
+        (Outcome::Panic { msg, loc }, _) | (_, Outcome::Panic { msg, loc }) =>
+            st.violation(&format!("C13:axiom-{}:Rat:refused", name), format!("panic '{}' at {}; {}", msg, loc, desc())),
+        _ => st.count("skipped:rat-overflow-in-library"),
+    }
+}
+
+fn exact_triple(st: &mut Stats, class: &str, z1: P, z2: P, z3: P, r: Rat) {
+    st.next_case();
+    let desc = || format!("T=Rat class={} z1={:?} z2={:?} z3={:?} r={:?}", class, z1, z2, z3, r);
+    let (a, b, c) = (cq(z1), cq(z2), cq(z3));
+    let is0 = |p: P| p.0.is_zero() && p.1.is_zero();
+    axiom(st, "add-associative", catch(|| (a.clone() + b.clone()) + c.clone()), catch(|| a.clone() + (b.clone() + c.clone())), &desc);
+    axiom(st, "mul-associative", catch(|| (a.clone() * b.clone()) * c.clone()), catch(|| a.clone() * (b.clone() * c.clone())), &desc);
+    axiom(st, "add-commutative", catch(|| a.clone() + b.clone()), catch(|| b.clone() + a.clone()), &desc);
+    axiom(st, "mul-commutative", catch(|| a.clone() * b.clone()), catch(|| b.clone() * a.clone()), &desc);
+    axiom(st, "distributive-left", catch(|| a.clone() * (b.clone() + c.clone())), catch(|| a.clone() * b.clone() + a.clone() * c.clone()), &desc);
+    axiom(st, "distributive-right", catch(|| (a.clone() - b.clone()) * c.clone()), catch(|| a.clone() * c.clone() - b.clone() * c.clone()), &desc);
+    axiom(st, "sub-is-add-neg", catch(|| a.clone() - b.clone()), catch(|| a.clone() + (-b.clone())), &desc);
+    axiom(st, "additive-inverse", catch(|| a.clone() + (-a.clone())), catch(|| <CQ as Zero>::zero()), &desc);
+    axiom(st, "conj-multiplicative", catch(|| (a.clone() * b.clone()).conj()), catch(|| a.conj() * b.conj()), &desc);
+    axiom(st, "conj-involution", catch(|| a.conj().conj()), catch(|| a.clone()), &desc);
+    axiom(st, "abs_sqr-is-z-conj-z", catch(|| a.clone() * a.conj()), catch(|| Complex::new(a.abs_sqr(), Rat::ZERO)), &desc);
+    axiom(st, "abs_sqr-multiplicative", catch(|| Complex::new((a.clone() * b.clone()).abs_sqr(), Rat::ZERO)), catch(|| Complex::new(a.abs_sqr() * b.abs_sqr(), Rat::ZERO)), &desc);
+    if !is0(z1) {
+        axiom(st, "mul-inverse", catch(|| a.clone() * (<CQ as One>::one() / a.clone())), catch(|| <CQ as One>::one()), &desc);
+        axiom(st, "div-self", catch(|| a.clone() / a.clone()), catch(|| <CQ as One>::one()), &desc);
+    }
+    if !is0(z2) {
+        axiom(st, "div-then-mul", catch(|| (a.clone() / b.clone()) * b.clone()), catch(|| a.clone()), &desc);
+        axiom(st, "mul-then-div", catch(|| (a.clone() * b.clone()) / b.clone()), catch(|| a.clone()), &desc);
+        axiom(st, "div-is-mul-inverse", catch(|| c.clone() / b.clone()), catch(|| c.clone() * (<CQ as One>::one() / b.clone())), &desc);
+        axiom(st, "div-distributive", catch(|| (a.clone() + c.clone()) / b.clone()), catch(|| a.clone() / b.clone() + c.clone() / b.clone()), &desc);
+    }
+    if !is0(z2) && !is0(z3) {
+        axiom(st, "div-div", catch(|| (a.clone() / b.clone()) / c.clone()), catch(|| a.clone() / (b.clone() * c.clone())), &desc);
+    }
+    // real scalar forms embed as (r, 0)
+    let rc = || Complex::new(r, Rat::ZERO);
+    axiom(st, "scalar-add-embeds", catch(|| a.clone() + r), catch(|| a.clone() + rc()), &desc);
+    axiom(st, "scalar-sub-embeds", catch(|| a.clone() - r), catch(|| a.clone() - rc()), &desc);
+    axiom(st, "scalar-mul-embeds", catch(|| a.clone() * r), catch(|| a.clone() * rc()), &desc);
+    if !r.is_zero() {
+        axiom(st, "scalar-div-embeds", catch(|| a.clone() / r), catch(|| a.clone() / rc()), &desc);
+        axiom(st, "scalar-mul-div", catch(|| (a.clone() * r) / r), catch(|| a.clone()), &desc);
+    }
+    // ordering: transitivity on the triple (library answers only)
+    let ord = catch(|| (m_lex(z1, z2), m_lex(z2, z3), m_lex(z1, z3)));
+    if let Outcome::Ok((m12, m23, m13)) = ord {
+        let c12 = judge_order(st, "Rat", &a, &b, m12, &desc);
+        let c23 = judge_order(st, "Rat", &b, &c, m23, &desc);
+        let c13 = judge_order(st, "Rat", &a, &c, m13, &desc);
+        transitivity(st, "Rat", c12, c23, c13, &desc);
+    } else { st.count("skipped:rat-overflow-in-model"); }
+    st.count(&format!("cases:Rat:triple:{}", class));
+    let nzc = [z1.0, z1.1, z2.0, z2.1, z3.0, z3.1].iter().all(|x| !x.is_zero());
+    if nzc && z1 != z2 && z2 != z3 && z1 != z3 {
+        let mut h = hash_str("Rat-triple");
+        for x in [z1.0, z1.1, z2.0, z2.1, z3.0, z3.1, r] { h = hq(h, x); }
+        st.nontrivial(h);
+    }
+}
+
+// ---- exact generators -----------------------------------------------------------------------
+const SPECIALS: [(i128, i128); 12] = [(0, 1), (1, 1), (-1, 1), (2, 1), (-2, 1), (1, 2), (-1, 2), (3, 2), (1, 3), (-2, 3), (10, 1), (-7, 5)];
+
+fn gen_rat(rng: &mut Rng, kind: u64) -> Rat {
+    match kind {
+        0 => Rat::int(rng.int(-6, 6)),
+        1 => Rat::new(rng.int(-40, 40) as i128, rng.int(1, 12) as i128),
+        2 => Rat::new(rng.int(-1_000_000, 1_000_000) as i128, rng.int(1, 1000) as i128),
+        3 => Rat::new(rng.int(-(1 << 20), 1 << 20) as i128, 1i128 << rng.int(0, 20)),
+        _ => { let (n, d) = *rng.pick(&SPECIALS); Rat::new(n, d) }
+    }
+}
+/// kind for triples: smaller numbers so that triple products stay inside i128
+fn gen_rat_small(rng: &mut Rng, kind: u64) -> Rat {
+    match kind {
+        0 => Rat::int(rng.int(-6, 6)),
+        1 => Rat::new(rng.int(-40, 40) as i128, rng.int(1, 12) as i128),
+        2 => Rat::new(rng.int(-1000, 1000) as i128, rng.int(1, 60) as i128),
+        3 => Rat::new(rng.int(-255, 255) as i128, 1i128 << rng.int(0, 8)),
+        _ => { let (n, d) = *rng.pick(&SPECIALS); Rat::new(n, d) }
+    }
+}
+const KIND_NAMES: [&str; 5] = ["small-int", "fraction", "big-fraction", "dyadic", "special"];
+const SHAPES: [&str; 12] = ["general", "z-real", "z-imag", "w-real", "w-imag", "w=z", "w=conj-z", "w=-z", "same-real", "same-imag", "w=i*z", "z=0"];
+
+/// impose one of the structural shapes of the quantifier on (z, w)
+fn shape_q(shape: usize, z: &mut P, w: &mut P) {
+    match shape {
+        1 => z.1 = Rat::ZERO,
+        2 => z.0 = Rat::ZERO,
+        3 => w.1 = Rat::ZERO,
+        4 => w.0 = Rat::ZERO,
+        5 => *w = *z,
+        6 => *w = (z.0, -z.1),
+        7 => *w = (-z.0, -z.1),
+        8 => w.0 = z.0,
+        9 => w.1 = z.1,
+        10 => *w = (-z.1, z.0),
+        11 => *z = (Rat::ZERO, Rat::ZERO),
+        _ => {}
+    }
+}
+fn pick_shape(rng: &mut Rng) -> usize { if rng.chance(0.5) { 0 } else { rng.usize(1, SHAPES.len() - 1) } }
+
+fn random_exact_pair(st: &mut Stats, rng: &mut Rng) {
+    let kind = rng.below(5);
+    let mut z = (gen_rat(rng, kind), gen_rat(rng, kind));
+    let mut w = (gen_rat(rng, kind), gen_rat(rng, kind));
+    let r = gen_rat(rng, kind);
+    let shape = pick_shape(rng);
+    shape_q(shape, &mut z, &mut w);
+    exact_pair(st, &format!("{}/{}", KIND_NAMES[kind as usize], SHAPES[shape]), z, w, r);
+}
+fn random_exact_triple(st: &mut Stats, rng: &mut Rng) {
+    let kind = rng.below(5);
+    let mut z1 = (gen_rat_small(rng, kind), gen_rat_small(rng, kind));
+    let mut z2 = (gen_rat_small(rng, kind), gen_rat_small(rng, kind));
+    let mut z3 = (gen_rat_small(rng, kind), gen_rat_small(rng, kind));
+    let r = gen_rat_small(rng, kind);
+    let shape = pick_shape(rng);
+    shape_q(shape, &mut z1, &mut z2);
+    let s2 = pick_shape(rng);
+    if s2 != 11 { shape_q(s2, &mut z2, &mut z3); }
+    exact_triple(st, &format!("{}/{}+{}", KIND_NAMES[kind as usize], SHAPES[shape], SHAPES[s2]), z1, z2, z3, r);
+}
+
+// ---- Complex<f64> ---------------------------------------------------------------------------
+fn showz(z: Cmplx) -> String { format!("({}, {})", hexf(z.real), hexf(z.imag)) }
+fn in_range(x: f64) -> bool { x == 0.0 || (x.abs() >= 1e-100 && x.abs() <= 1e100) }
+fn finite(z: Cmplx) -> bool { z.real.is_finite() && z.imag.is_finite() }
+fn same_bits(x: Cmplx, y: Cmplx) -> bool { x.real.to_bits() == y.real.to_bits() && x.imag.to_bits() == y.imag.to_bits() }
+fn f_lex(z: Cmplx, w: Cmplx) -> Ordering {
+    if z.real < w.real { Ordering::Less } else if w.real < z.real { Ordering::Greater }
+    else if z.imag < w.imag { Ordering::Less } else if w.imag < z.imag { Ordering::Greater }
+    else { Ordering::Equal }
+}
+
+/// unwrap a float result; panics and non-finite values are violations (the property demands success in range)
+fn got_f(st: &mut Stats, site: &str, out: Outcome<Cmplx>, desc: &dyn Fn() -> String) -> Option<Cmplx> {
+    st.eval();
+    match out {
+        Outcome::Ok(v) => {
+            if !finite(v) {
+                st.violation(&format!("C13:{}:f64:nonfinite", site), format!("{} returned {}; {}", site, showz(v), desc()));
+                return None;
+            }
+            Some(v)
+        }
+        other => { st.violation(&format!("C13:{}:f64:refused", site), format!("{} {}; {}", site, other.describe(), desc())); None }
+    }
+}
+/// result must equal the given correctly rounded components (numeric equality: +0 == -0)
+fn chk_val(st: &mut Stats, site: &str, out: Outcome<Cmplx>, exp: (f64, f64), desc: &dyn Fn() -> String) -> Option<Cmplx> {
+    let v = got_f(st, site, out, desc)?;
+    if !(v.real == exp.0 && v.imag == exp.1) {
+        st.violation(&format!("C13:{}:f64:wrong-value", site), format!("{} returned {}, expected ({}, {}); {}", site, showz(v), hexf(exp.0), hexf(exp.1), desc()));
+    }
+    Some(v)
+}
+fn chk_bits(st: &mut Stats, site: &str, assign: Option<Cmplx>, binary: Option<Cmplx>, desc: &dyn Fn() -> String) {
+    if let (Some(a), Some(b)) = (assign, binary) {
+        st.count("bit-identity-comparisons");
+        if !same_bits(a, b) {
+            st.violation(&format!("C13:{}:f64:not-bit-identical-to-binary", site), format!("{} gave {} but binary form gave {}; {}", site, showz(a), showz(b), desc()));
+        }
+    }
+}
+fn chk_tol(st: &mut Stats, site: &str, key: &str, err_u: f64, tol: f64, v: &dyn Fn() -> String, desc: &dyn Fn() -> String) {
+    st.max(&format!("max_err_over_tol:{}", key), err_u / tol);
+    st.max(&format!("max_err_in_u:{}", key), err_u);
+    if !(err_u <= tol) {
+        st.violation(&format!("C13:{}:f64:wrong-value", site), format!("{} error {:e} u > {} u; result {}; {}", site, err_u, tol, v(), desc()));
+    }
+}
+
+/// normwise error (units of u) of p as the product z*w; exact product held as TwoProd expansions
+fn mul_err(z: Cmplx, w: Cmplx, p: Cmplx) -> f64 {
+    let (a, b, c, d) = (z.real, z.imag, w.real, w.imag);
+    let re = DD::prod(a, c) - DD::prod(b, d);
+    let im = DD::prod(a, d) + DD::prod(b, c);
+    let er = (DD::from(p.real) - re).f();
+    let ei = (DD::from(p.imag) - im).f();
+    let scale = a.hypot(b) * c.hypot(d);
+    if scale == 0.0 { if p.real == 0.0 && p.imag == 0.0 { 0.0 } else { f64::INFINITY } } else { er.hypot(ei) / scale / U }
+}
+/// normwise error (units of u) of q as the quotient z/w (w != 0), from the residual q*|w|^2 - z*conj(w)
+fn div_err(z: Cmplx, w: Cmplx, q: Cmplx) -> f64 {
+    let (a, b, c, d) = (z.real, z.imag, w.real, w.imag);
+    let den = DD::prod(c, c) + DD::prod(d, d);
+    let nre = DD::prod(a, c) + DD::prod(b, d);
+    let nim = DD::prod(b, c) - DD::prod(a, d);
+    let rr = (DD::from(q.real) * den - nre).f();
+    let ri = (DD::from(q.imag) * den - nim).f();
+    let scale = a.hypot(b) * c.hypot(d);
+    if scale == 0.0 { if q.real == 0.0 && q.imag == 0.0 { 0.0 } else { f64::INFINITY } } else { rr.hypot(ri) / scale / U }
+}
+/// componentwise relative error (u) of v as a*r
+fn smul_err(a: f64, r: f64, v: f64) -> f64 {
+    let e = DD::prod(a, r);
+    if e.hi == 0.0 { if v == 0.0 { 0.0 } else { f64::INFINITY } } else { (DD::from(v) - e).f().abs() / e.hi.abs() / U }
+}
+/// componentwise relative error (u) of v as a/r (r != 0) from the residual v*r - a
+fn sdiv_err(a: f64, r: f64, v: f64) -> f64 {
+    if a == 0.0 { if v == 0.0 { 0.0 } else { f64::INFINITY } } else { (DD::prod(v, r) - DD::from(a)).f().abs() / a.abs() / U }
+}
+
+fn float_pair(st: &mut Stats, class: &str, z: Cmplx, w: Cmplx, r: f64) {
+    st.next_case();
+    let (a, b, c, d) = (z.real, z.imag, w.real, w.imag);
+    if ![a, b, c, d, r].iter().all(|x| in_range(*x)) { st.count("skipped:f64-operand-outside-1e-100..1e100"); return; }
+    let desc = || format!("T=f64 class={} z={} w={} r={}", class, showz(z), showz(w), hexf(r));
+    let wz = c == 0.0 && d == 0.0;
+    let zero = Cmplx::new(0.0, 0.0);
+    // --- unary / additive forms: exact components
+    chk_val(st, "neg", catch(|| -z), (-a, -b), &desc);
+    chk_val(st, "conj", catch(|| z.conj()), (a, -b), &desc);
+    let b_add = chk_val(st, "add", catch(|| z + w), (a + c, b + d), &desc);
+    let b_sub = chk_val(st, "sub", catch(|| z - w), (a - c, b - d), &desc);
+    let b_addr = chk_val(st, "add_real", catch(|| z + r), (a + r, b), &desc);
+    let b_subr = chk_val(st, "sub_real", catch(|| z - r), (a - r, b), &desc);
+    // --- multiplication
+    let b_mul = got_f(st, "mul", catch(|| z * w), &desc);
+    if let Some(p) = b_mul { chk_tol(st, "mul", "mul", mul_err(z, w, p), TOL_MUL, &|| showz(p), &desc); }
+    if let Some(p) = got_f(st, "mul", catch(|| w * z), &desc) { chk_tol(st, "mul", "mul", mul_err(z, w, p), TOL_MUL, &|| showz(p), &desc); }
+    // --- division
+    let mut b_div = None;
+    if !wz {
+        b_div = got_f(st, "div", catch(|| z / w), &desc);
+        if let Some(q) = b_div { chk_tol(st, "div", "div", div_err(z, w, q), TOL_DIV, &|| showz(q), &desc); }
+    } else { st.count("undefined:f64-division-by-zero"); }
+    // --- mixed real scalar forms
+    let b_mulr = got_f(st, "mul_real", catch(|| z * r), &desc);
+    if let Some(p) = b_mulr {
+        chk_tol(st, "mul_real", "mul_real", smul_err(a, r, p.real).max(smul_err(b, r, p.imag)), TOL_SCALAR, &|| showz(p), &desc);
+    }
+    let l_mulr = got_f(st, "real_mul", catch(|| r * z), &desc);
+    if let (Some(l), Some(p)) = (l_mulr, b_mulr) {
+        st.count("bit-identity-comparisons");
+        if !same_bits(l, p) {
+            st.violation("C13:real_mul:f64:not-bit-identical-to-mul_real", format!("r*z = {} but z*r = {}; {}", showz(l), showz(p), desc()));
+        }
+    }
+    let mut b_divr = None;
+    if r != 0.0 {
+        b_divr = got_f(st, "div_real", catch(|| z / r), &desc);
+        if let Some(q) = b_divr {
+            chk_tol(st, "div_real", "div_real", sdiv_err(a, r, q.real).max(sdiv_err(b, r, q.imag)), TOL_SCALAR, &|| showz(q), &desc);
+        }
+    }
+    // --- compound assignment forms: bit identical to the binary forms
+    let t = got_f(st, "add_assign", catch(|| { let mut t = z; t += w; t }), &desc); chk_bits(st, "add_assign", t, b_add, &desc);
+    let t = got_f(st, "sub_assign", catch(|| { let mut t = z; t -= w; t }), &desc); chk_bits(st, "sub_assign", t, b_sub, &desc);
+    let t = got_f(st, "mul_assign", catch(|| { let mut t = z; t *= w; t }), &desc); chk_bits(st, "mul_assign", t, b_mul, &desc);
+    if !wz { let t = got_f(st, "div_assign", catch(|| { let mut t = z; t /= w; t }), &desc); chk_bits(st, "div_assign", t, b_div, &desc); }
+    let t = got_f(st, "add_assign_real", catch(|| { let mut t = z; t += r; t }), &desc); chk_bits(st, "add_assign_real", t, b_addr, &desc);
+    let t = got_f(st, "sub_assign_real", catch(|| { let mut t = z; t -= r; t }), &desc); chk_bits(st, "sub_assign_real", t, b_subr, &desc);
+    let t = got_f(st, "mul_assign_real", catch(|| { let mut t = z; t *= r; t }), &desc); chk_bits(st, "mul_assign_real", t, b_mulr, &desc);
+    if r != 0.0 { let t = got_f(st, "div_assign_real", catch(|| { let mut t = z; t /= r; t }), &desc); chk_bits(st, "div_assign_real", t, b_divr, &desc); }
+    // self-aliased in-place forms
+    let sq = got_f(st, "mul", catch(|| z * z), &desc);
+    let t = got_f(st, "mul_assign", catch(|| { let mut t = z; let c2 = t; t *= c2; t }), &desc); chk_bits(st, "mul_assign", t, sq, &desc);
+    // --- squared modulus, modulus, argument
+    let zz = a == 0.0 && b == 0.0;
+    let exact_sq = DD::prod(a, a) + DD::prod(b, b);
+    st.eval();
+    match catch(|| z.abs_sqr()) {
+        Outcome::Ok(v) => {
+            let e = if zz { if v == 0.0 { 0.0 } else { f64::INFINITY } } else { (DD::from(v) - exact_sq).f().abs() / exact_sq.hi / U };
+            chk_tol(st, "abs_sqr", "abs_sqr", e, TOL_ABSSQR, &|| hexf(v), &desc);
+        }
+        other => st.violation("C13:abs_sqr:f64:refused", format!("abs_sqr {}; {}", other.describe(), desc())),
+    }
+    st.eval();
+    match catch(|| z.abs()) {
+        Outcome::Ok(v) => {
+            let e = if zz { if v == 0.0 { 0.0 } else { f64::INFINITY } }
+                else if !(v > 0.0) { f64::INFINITY }
+                else { (DD::prod(v, v) - exact_sq).f().abs() / exact_sq.hi / 2.0 / U };
+            chk_tol(st, "abs", "abs", e, TOL_ABS, &|| hexf(v), &desc);
+        }
+        other => st.violation("C13:abs:f64:refused", format!("abs {}; {}", other.describe(), desc())),
+    }
+    if !zz {
+        st.eval();
+        match catch(|| z.arg()) {
+            Outcome::Ok(t) => {
+                let (s, co) = t.sin_cos();
+                let cross = (DD::prod(a, s) - DD::prod(b, co)).f().abs();
+                let dot = a * co + b * s;
+                let e = if !(t.abs() <= std::f64::consts::PI) || !(dot > 0.0) { f64::INFINITY } else { cross / a.hypot(b) / U };
+                chk_tol(st, "arg", "arg", e, TOL_ARG, &|| hexf(t), &desc);
+            }
+            other => st.violation("C13:arg:f64:refused", format!("arg {}; {}", other.describe(), desc())),
+        }
+    }
+    // --- identities (numeric equality)
+    chk_val(st, "zero", catch(|| <Cmplx as Zero>::zero()), (0.0, 0.0), &desc);
+    chk_val(st, "one", catch(|| <Cmplx as One>::one()), (1.0, 0.0), &desc);
+    chk_val(st, "identity-add-zero", catch(|| z + <Cmplx as Zero>::zero()), (a, b), &desc);
+    chk_val(st, "identity-zero-add", catch(|| <Cmplx as Zero>::zero() + z), (a, b), &desc);
+    chk_val(st, "identity-sub-zero", catch(|| z - <Cmplx as Zero>::zero()), (a, b), &desc);
+    chk_val(st, "identity-mul-one", catch(|| z * <Cmplx as One>::one()), (a, b), &desc);
+    chk_val(st, "identity-one-mul", catch(|| <Cmplx as One>::one() * z), (a, b), &desc);
+    chk_val(st, "identity-div-one", catch(|| z / <Cmplx as One>::one()), (a, b), &desc);
+    chk_val(st, "identity-mul-assign-one", catch(|| { let mut t = z; t *= <Cmplx as One>::one(); t }), (a, b), &desc);
+    chk_val(st, "identity-div-assign-one", catch(|| { let mut t = z; t /= <Cmplx as One>::one(); t }), (a, b), &desc);
+    chk_val(st, "identity-add-assign-zero", catch(|| { let mut t = z; t += zero; t }), (a, b), &desc);
+    chk_val(st, "identity-mul-real-one", catch(|| z * 1.0), (a, b), &desc);
+    chk_val(st, "annihilator-mul-zero", catch(|| z * <Cmplx as Zero>::zero()), (0.0, 0.0), &desc);
+    // --- equality / ordering
+    chk_bool(st, "eq", "f64", catch(|| z == w), a == c && b == d, &desc);
+    chk_bool(st, "ne", "f64", catch(|| z != w), !(a == c && b == d), &desc);
+    chk_bool(st, "eq-reflexive", "f64", catch(|| z == z), true, &desc);
+    judge_order(st, "f64", &z, &w, f_lex(z, w), &desc);
+
+    st.count(&format!("cases:f64:pair:{}", class));
+    let mut mags = [a.abs(), b.abs(), c.abs(), d.abs()];
+    mags.sort_by(|x, y| x.partial_cmp(y).unwrap_or(Ordering::Equal));
+    let distinct = mags[0] != mags[1] && mags[1] != mags[2] && mags[2] != mags[3];
+    if nontrivial4(a != 0.0, b != 0.0, c != 0.0, d != 0.0, distinct) && r != 0.0 {
+        let mut h = hash_str("f64-pair");
+        for x in [a, b, c, d, r] { h = hmix(h, x.to_bits()); }
+        st.nontrivial(h);
+        let span = (mags[3] / mags[0]).log10();
+        st.max("f64:max_log10_magnitude_span_in_a_pair", span);
+    }
+}
+
+fn float_order_triple(st: &mut Stats, class: &str, z1: Cmplx, z2: Cmplx, z3: Cmplx) {
+    st.next_case();
+    if ![z1, z2, z3].iter().all(|z| in_range(z.real) && in_range(z.imag)) { st.count("skipped:f64-operand-outside-1e-100..1e100"); return; }
+    let desc = || format!("T=f64 class={} z1={} z2={} z3={}", class, showz(z1), showz(z2), showz(z3));
+    let c12 = judge_order(st, "f64", &z1, &z2, f_lex(z1, z2), &desc);
+    let c23 = judge_order(st, "f64", &z2, &z3, f_lex(z2, z3), &desc);
+    let c13 = judge_order(st, "f64", &z1, &z3, f_lex(z1, z3), &desc);
+    transitivity(st, "f64", c12, c23, c13, &desc);
+    st.count(&format!("cases:f64:order-triple:{}", class));
+}
+
+/// Small dyadic operands (k/2^s, |k| <= 1023, s <= 8): the reference is the *rational* result computed over Rat
+/// and converted exactly to f64 (all of sum, difference, product, z*conj(w) and |w|^2 are representable).
+fn dyadic_case(st: &mut Stats, z: (Rat, Rat), w: (Rat, Rat)) {
+    st.next_case();
+    let ex = |x: Rat| x.as_exact_f64();
+    let model = catch(|| (m_add(z, w), m_sub(z, w), m_mul(z, w), m_mul(z, m_conj(w)), m_norm(w), m_norm(z)));
+    let (s, df, p, n, den, nz) = match model { Outcome::Ok(t) => t, _ => { st.count("skipped:rat-overflow-in-model"); return; } };
+    let vals = [z.0, z.1, w.0, w.1, s.0, s.1, df.0, df.1, p.0, p.1, n.0, n.1, den, nz];
+    let f: Vec<f64> = match vals.iter().map(|x| ex(*x)).collect::<Option<Vec<f64>>>() { Some(v) => v, None => { st.count("skipped:dyadic-not-representable"); return; } };
+    let (zf, wf) = (Cmplx::new(f[0], f[1]), Cmplx::new(f[2], f[3]));
+    let desc = || format!("T=f64 class=dyadic-vs-rational z={:?} w={:?} (f64 z={} w={})", z, w, showz(zf), showz(wf));
+    chk_val(st, "add", catch(|| zf + wf), (f[4], f[5]), &desc);
+    chk_val(st, "sub", catch(|| zf - wf), (f[6], f[7]), &desc);
+    let scale = f[13].sqrt() * f[12].sqrt();
+    if let Some(v) = got_f(st, "mul", catch(|| zf * wf), &desc) {
+        let e = if scale == 0.0 { if v.real == 0.0 && v.imag == 0.0 { 0.0 } else { f64::INFINITY } } else { (v.real - f[8]).hypot(v.imag - f[9]) / scale / U };
+        if v.real == f[8] && v.imag == f[9] { st.count("dyadic:mul-equals-rational-product-exactly"); }
+        chk_tol(st, "mul", "mul-vs-rational", e, TOL_MUL, &|| showz(v), &desc);
+    }
+    if let Some(v) = got_f(st, "mul_assign", catch(|| { let mut t = zf; t *= wf; t }), &desc) {
+        let e = if scale == 0.0 { if v.real == 0.0 && v.imag == 0.0 { 0.0 } else { f64::INFINITY } } else { (v.real - f[8]).hypot(v.imag - f[9]) / scale / U };
+        chk_tol(st, "mul_assign", "mul-vs-rational", e, TOL_MUL, &|| showz(v), &desc);
+    }
+    if !den.is_zero() {
+        for site in ["div", "div_assign"] {
+            let out = if site == "div" { catch(|| zf / wf) } else { catch(|| { let mut t = zf; t /= wf; t }) };
+            if let Some(q) = got_f(st, site, out, &desc) {
+                // residual q*den - n with exact (representable) den and n = z*conj(w)
+                let rr = (DD::prod(q.real, f[12]) - DD::from(f[10])).f();
+                let ri = (DD::prod(q.imag, f[12]) - DD::from(f[11])).f();
+                let e = if scale == 0.0 { if q.real == 0.0 && q.imag == 0.0 { 0.0 } else { f64::INFINITY } } else { rr.hypot(ri) / scale / U };
+                if q.real == f[10] / f[12] && q.imag == f[11] / f[12] { st.count("dyadic:div-equals-correctly-rounded-rational-quotient"); }
+                chk_tol(st, site, "div-vs-rational", e, TOL_DIV, &|| showz(q), &desc);
+            }
+        }
+    }
+    st.eval();
+    match catch(|| zf.abs_sqr()) {
+        Outcome::Ok(v) => if v != f[13] { st.violation("C13:abs_sqr:f64:wrong-value", format!("abs_sqr returned {}, exact rational value {}; {}", hexf(v), hexf(f[13]), desc())); },
+        other => st.violation("C13:abs_sqr:f64:refused", format!("abs_sqr {}; {}", other.describe(), desc())),
+    }
+    st.count("cases:f64:dyadic-vs-rational");
+    if [z.0, z.1, w.0, w.1].iter().all(|x| !x.is_zero()) && z != w {
+        let mut h = hash_str("f64-dyadic");
+        for x in [z.0, z.1, w.0, w.1] { h = hq(h, x); }
+        st.nontrivial(h);
+    }
+}
+
+// ---- float generators -----------------------------------------------------------------------
+const F_SPECIALS: [f64; 16] = [0.0, -0.0, 1.0, -1.0, 1e-100, -1e-100, 1e100, -1e100, 0.5, 2.0, 3.0, -7.0, 1e50, -1e-50, 1.0000000000000002, 0.9999999999999999];
+const F_KINDS: [&str; 7] = ["wide", "moderate", "small-int", "pow2", "special", "near-one", "edge-of-range"];
+
+fn clamp_mag(x: f64) -> f64 { if x == 0.0 { x } else { x.signum() * x.abs().clamp(1e-100, 1e100) } }
+fn gen_f(rng: &mut Rng, kind: u64) -> f64 {
+    match kind {
+        0 => clamp_mag(rng.logmag(1e-100, 1e100)),
+        1 => rng.logmag(1e-3, 1e3),
+        2 => rng.int(-9, 9) as f64,
+        3 => { let v = 2f64.powi(rng.int(-332, 332) as i32); if rng.bool() { v } else { -v } }
+        4 => *rng.pick(&F_SPECIALS),
+        5 => { let v = 0.5 + rng.unit() * 1.5; if rng.bool() { v } else { -v } }
+        _ => { let v = if rng.bool() { clamp_mag(1e100 * (1.0 - rng.unit() * 0.9)) } else { clamp_mag(1e-100 * (1.0 + rng.unit() * 9.0)) }; if rng.bool() { v } else { -v } }
+    }
+}
+const F_SHAPES: [&str; 17] = ["general", "z-real", "z-imag", "w-real", "w-imag", "w=z", "w=conj-z", "w=-z", "same-real", "same-imag", "w=i*z", "z=0",
+    "cancel-real-part-of-product", "cancel-imag-part-of-product", "w-few-ulps-from-z", "signed-zero-parts", "mixed-kinds"];
+
+fn nudge(rng: &mut Rng, x: f64) -> f64 {
+    if x == 0.0 { return x; }
+    let k = rng.int(-3, 3);
+    f64::from_bits((x.to_bits() as i64 + k) as u64)
+}
+fn shape_f(rng: &mut Rng, shape: usize, z: &mut Cmplx, w: &mut Cmplx) {
+    match shape {
+        1 => z.imag = 0.0,
+        2 => z.real = 0.0,
+        3 => w.imag = 0.0,
+        4 => w.real = 0.0,
+        5 => *w = *z,
+        6 => *w = Cmplx::new(z.real, -z.imag),
+        7 => *w = Cmplx::new(-z.real, -z.imag),
+        8 => w.real = z.real,
+        9 => w.imag = z.imag,
+        10 => *w = Cmplx::new(-z.imag, z.real),
+        11 => *z = Cmplx::new(0.0, 0.0),
+        12 => { if z.imag != 0.0 { let d = z.real * w.real / z.imag; if in_range(d) && d != 0.0 { w.imag = d; } } }
+        13 => { if z.real != 0.0 { let d = -(z.imag * w.real) / z.real; if in_range(d) && d != 0.0 { w.imag = d; } } }
+        14 => { let c = Cmplx::new(nudge(rng, z.real), nudge(rng, z.imag)); if in_range(c.real) && in_range(c.imag) { *w = c; } }
+        15 => { if rng.bool() { z.real = if rng.bool() { 0.0 } else { -0.0 }; } else { z.imag = if rng.bool() { 0.0 } else { -0.0 }; }
+                if rng.bool() { w.real = if rng.bool() { 0.0 } else { -0.0 }; } else { w.imag = if rng.bool() { 0.0 } else { -0.0 }; } }
+        _ => {}
+    }
+}
+fn pick_shape_f(rng: &mut Rng) -> usize { if rng.chance(0.45) { 0 } else { rng.usize(1, F_SHAPES.len() - 1) } }
+
+fn random_float_pair(st: &mut Stats, rng: &mut Rng) {
+    let kind = rng.below(F_KINDS.len() as u64);
+    let shape = pick_shape_f(rng);
+    let g = |rng: &mut Rng| if shape == 16 { let k = rng.below(F_KINDS.len() as u64); gen_f(rng, k) } else { gen_f(rng, kind) };
+    let mut z = Cmplx::new(g(rng), g(rng));
+    let mut w = Cmplx::new(g(rng), g(rng));
+    let r = g(rng);
+    shape_f(rng, shape, &mut z, &mut w);
+    float_pair(st, &format!("{}/{}", F_KINDS[kind as usize], F_SHAPES[shape]), z, w, r);
+}
+fn random_float_order_triple(st: &mut Stats, rng: &mut Rng) {
+    let kind = rng.below(F_KINDS.len() as u64);
+    let mut z1 = Cmplx::new(gen_f(rng, kind), gen_f(rng, kind));
+    let mut z2 = Cmplx::new(gen_f(rng, kind), gen_f(rng, kind));
+    let mut z3 = Cmplx::new(gen_f(rng, kind), gen_f(rng, kind));
+    let s1 = *rng.pick(&[0usize, 5, 8, 8, 9, 14, 15]);
+    let s2 = *rng.pick(&[0usize, 5, 8, 8, 9, 14, 15]);
+    shape_f(rng, s1, &mut z1, &mut z2);
+    shape_f(rng, s2, &mut z2, &mut z3);
+    if rng.chance(0.3) { z3.real = z1.real; }
+    float_order_triple(st, &format!("{}/{}+{}", F_KINDS[kind as usize], F_SHAPES[s1], F_SHAPES[s2]), z1, z2, z3);
+}
+fn random_dyadic(st: &mut Stats, rng: &mut Rng) {
+    let g = |rng: &mut Rng| Rat::new(rng.int(-1023, 1023) as i128, 1i128 << rng.int(0, 8));
+    let mut z = (g(rng), g(rng));
+    let mut w = (g(rng), g(rng));
+    let shape = pick_shape(rng);
+    shape_q(shape, &mut z, &mut w);
+    dyadic_case(st, z, w);
+}
+
+// ---- enumerated sweeps (independent of the seed) ---------------------------------------------
+const GRID_INT: [(i128, i128); 5] = [(-2, 1), (-1, 1), (0, 1), (1, 1), (2, 1)];
+const GRID_FRAC: [(i128, i128); 5] = [(-3, 2), (-1, 3), (0, 1), (1, 2), (2, 1)];
+const GRID_R: [(i128, i128); 5] = [(-2, 1), (-1, 2), (0, 1), (1, 1), (3, 1)];
+const PAIR_CODES: u64 = 625 * 5;
+const PAIR_CHUNK: u64 = 25;
+
+fn enum_pair(st: &mut Stats, grid: &[(i128, i128); 5], name: &str, code: u64) {
+    let g = |k: u64| { let (n, d) = grid[(k % 5) as usize]; Rat::new(n, d) };
+    let z = (g(code), g(code / 5));
+    let w = (g(code / 25), g(code / 125));
+    let (rn, rd) = GRID_R[((code / 625) % 5) as usize];
+    let r = Rat::new(rn, rd);
+    exact_pair(st, name, z, w, r);
+    // the same grid point through Complex<f64> (all values are exactly representable except thirds, which are rounded)
+    let f = |x: Rat| x.n as f64 / x.d as f64;
+    float_pair(st, name, Cmplx::new(f(z.0), f(z.1)), Cmplx::new(f(w.0), f(w.1)), f(r));
+}
+fn enum_triple(st: &mut Stats, vals: &[i64], code: u64) {
+    let n = vals.len() as u64;
+    let g = |k: u64| Rat::int(vals[(k % n) as usize]);
+    let z1 = (g(code), g(code / n));
+    let z2 = (g(code / (n * n)), g(code / (n * n * n)));
+    let z3 = (g(code / (n * n * n * n)), g(code / (n * n * n * n * n)));
+    let (rn, rd) = GRID_R[(code % 5) as usize];
+    exact_triple(st, "enum-grid-triple", z1, z2, z3, Rat::new(rn, rd));
+    let f = |p: P| Cmplx::new(p.0.n as f64, p.1.n as f64);
+    float_order_triple(st, "enum-grid-triple", f(z1), f(z2), f(z3));
+}
+
+pub fn run(ctx: &Ctx) -> Report {
+    let tri_vals: Vec<i64> = if ctx.quick() { vec![-1, 0, 1, 2] } else { vec![-2, -1, 0, 1, 2] };
+    let tri_codes = (tri_vals.len() as u64).pow(6);
+    const TRI_CHUNK: u64 = 64;
+    let n_pair_units = 2 * ((PAIR_CODES + PAIR_CHUNK - 1) / PAIR_CHUNK);
+    let n_tri_units = (tri_codes + TRI_CHUNK - 1) / TRI_CHUNK;
+    let n_enum = n_pair_units + n_tri_units;
+    let nrand = ctx.vol(RAND_UNITS_QUICK, RAND_UNITS_THOROUGH);
+    let stats = par_run(ctx, TAG, n_enum + nrand, |u, rng, st| {
+        if u < n_pair_units {
+            let half = n_pair_units / 2;
+            let (grid, name, uu) = if u < half { (&GRID_INT, "enum-grid-int", u) } else { (&GRID_FRAC, "enum-grid-frac", u - half) };
+            for code in uu * PAIR_CHUNK..((uu + 1) * PAIR_CHUNK).min(PAIR_CODES) { enum_pair(st, grid, name, code); }
+        } else if u < n_enum {
+            let uu = u - n_pair_units;
+            for code in uu * TRI_CHUNK..((uu + 1) * TRI_CHUNK).min(tri_codes) { enum_triple(st, &tri_vals, code); }
+        } else {
+            for _ in 0..12 { random_exact_pair(st, rng); }
+            for _ in 0..6 { random_exact_triple(st, rng); }
+            for _ in 0..40 { random_float_pair(st, rng); }
+            for _ in 0..6 { random_float_order_triple(st, rng); }
+            for _ in 0..6 { random_dyadic(st, rng); }
+        }
+    });
+    let mut rep = Report::new(stats,
+        "cases: (i) exhaustive grids — all (z,w) with components in {-2..2} and in {-3/2,-1/3,0,1/2,2} times 5 real scalars {-2,-1/2,0,1,3} through Complex<Rat> and Complex<f64> (every operator form), all triples with components in {-1,0,1,2} (quick) / {-2..2} (thorough) for the field axioms and order transitivity; (ii) random pairs/triples over Rat of 5 value kinds (small ints, fractions, big fractions, dyadics, specials) x 12 structural shapes (general, purely real/imaginary z or w, w=z, w=conj z, w=-z, shared real/imag part, w=iz, z=0); (iii) random Complex<f64> pairs with components 0 or |x| in [1e-100,1e100] of 7 value kinds x 17 shapes (adds cancellation in Re/Im of the product, w a few ulps from z, signed zeros, mixed magnitudes); (iv) f64 order triples; (v) small dyadic f64 operands judged against the rational result. A pair case is non-trivial when all four components and the real scalar are nonzero and the four component magnitudes are pairwise different (so a swapped / stale / dropped operand changes the value); a triple when all six components are nonzero and the three numbers differ. distinct = distinct (type, operands, scalar) hashes");
+    rep.assumptions = vec![
+        "Complex<f64> demands only for operands whose components are 0 or have magnitude in [1e-100,1e100] (checked by the harness on every case); then no product, |w|^2, quotient or TwoProd error term overflows or becomes subnormal, except the harmless underflow of a cancelling quotient component which is far below the normwise tolerance".into(),
+        "division by an exactly zero complex or real divisor is undefined by the property: everything accepted (counted as undefined:*); bit identity of /= vs / is not demanded there either".into(),
+        format!("fixed f64 tolerances in units of u=2^-53: mul normwise {} (rigorous bound sqrt(5)), div normwise {} (first-order bound sqrt(5)+3), real-scalar mul/div componentwise {}, abs_sqr {}, abs {}, arg (rotation residual) {}; +,-,neg,conj and scalar +,- must equal the correctly rounded components", TOL_MUL, TOL_DIV, TOL_SCALAR, TOL_ABSSQR, TOL_ABS, TOL_ARG),
+        "value comparisons of f64 results use numeric equality (+0 == -0); bit identity (to_bits) is demanded between each compound-assignment form and its binary form and between f64*z and z*f64".into(),
+        "the f64 reference is an exact TwoProd expansion summed in double-double (relative oracle error ~1e-31); for small dyadic operands the reference is computed over Rat and converted exactly".into(),
+        "Rat overflow in model or library => case or sub-check skipped (counted), never judged".into(),
+        "abs and arg are anchored but not named in the statement; they are checked as auxiliary sites (abs, arg) with their own signatures".into(),
+    ];
+    rep.min_nontrivial = if ctx.quick() { 100_000 } else { 2_000_000 };
+    let mut ex = J::obj();
+    ex.set("exhaustive_parts", J::Arr(vec![
+        J::s("all 625 (z,w) over {-2,-1,0,1,2}^4 x 5 real scalars, Complex<Rat> and Complex<f64>, every operator form"),
+        J::s("all 625 (z,w) over {-3/2,-1/3,0,1/2,2}^4 x 5 real scalars, Complex<Rat> and Complex<f64>"),
+        J::s(&format!("all {} triples over {:?}^6: field axioms over Complex<Rat>, order transitivity over Rat and f64", tri_codes, tri_vals)),
+    ]));
+    ex.set("operator_forms", J::s("neg add sub mul div | add_real sub_real mul_real div_real real_mul(f64 only) | add_assign sub_assign mul_assign div_assign | add_assign_real sub_assign_real mul_assign_real div_assign_real | conj abs_sqr abs arg zero one eq ne partial_cmp lt le gt ge"));
+    rep.extra = ex;
+    rep
+}
+
+const RAND_UNITS_QUICK: u64 = 40_000;
+const RAND_UNITS_THOROUGH: u64 = 1_000_000;
